@@ -333,6 +333,14 @@ func runC12(w *fw.Worker) {
 		witness := func() any {
 			return map[string]any{"package": pk.name, "custom_name_config": custom, "type": spec.Describe(), "template": fmt.Sprintf("%+v", tmplClone), "argv": argv}
 		}
+		if r.Chance(20) {
+			// some other component asked for the default naming configuration and customised ITS copy
+			pc := pflagsrc.DefaultFlagNameConfig()
+			pc.TagEncodeCasing, pc.FieldNameEncodeCasing = caseconversion.EncodeUpperSnakeCase, caseconversion.EncodeUpperSnakeCase
+			sc := stdflagsrc.DefaultFlagNameConfig()
+			sc.TagEncodeCasing, sc.FieldNameEncodeCasing = caseconversion.EncodeUpperSnakeCase, caseconversion.EncodeUpperSnakeCase
+			w.Count("default_name_configs_customised_by_someone_else", 1)
+		}
 		if r.Chance(40) {
 			// elsewhere in the process the same struct type was registered earlier under the other naming configuration
 			if other, _, oerr := pk.build(!custom, tmpl.Interface(), nil); oerr == nil {
